@@ -136,11 +136,18 @@ type Effect struct {
 type Log struct {
 	mu      sync.Mutex
 	clock   int64
+	bytes   int
 	Effects []Effect
 }
 
 func (l *Log) add(kind, text string) {
 	l.mu.Lock()
+	l.bytes += len(text)
+	if l.bytes > 64<<20 {
+		l.mu.Unlock()
+		// an output bomb is treated like a step budget overrun (decided by size, not time)
+		panic(fw.StepBudgetMsg)
+	}
 	l.clock++
 	l.Effects = append(l.Effects, Effect{Kind: kind, Text: text, Seq: l.clock})
 	l.mu.Unlock()
@@ -563,7 +570,7 @@ func RunTree(mods map[string]ast.AnalyzedProgram, src Sources, entry string, o T
 	exec := TreeExec{L: out.Log, Src: src}
 	defer func() {
 		if r := recover(); r != nil {
-			if _, ok := r.(stepBudgetPanic); ok {
+			if _, ok := r.(stepBudgetPanic); ok || r == any(fw.StepBudgetMsg) {
 				out.Outcome = Outcome{Class: "step-budget", Message: fw.StepBudgetMsg}
 				return
 			}
